@@ -97,5 +97,44 @@ theorem pivot_zero_iff_mem_span (hN : ∀ i < n, ∀ j < n, N i j = ip m (fun r 
     rw [← hB]
     exact horth _ hmem
 
+
+/-- **C20**: the columns that are NOT flagged are linearly independent — deleting the flagged
+    unknowns leaves a matrix of full column rank -/
+theorem unflagged_independent (hN : ∀ i < n, ∀ j < n, N i j = ip m (fun r => M r i) (fun r => M r j))
+    (h : IsLDL N n L D y) (c : ℕ → K) :
+    ∀ k ≤ n, ∑ j ∈ (range k).filter (fun j => D j ≠ 0), c j • colV m M j = 0 →
+      ∀ j < k, D j ≠ 0 → c j = 0 := by
+  intro k
+  induction k with
+  | zero => intro _ _ j hj; omega
+  | succ k ih =>
+    intro hk hsum j hj hDj
+    by_cases hDk : D k = 0
+    · have e : (range (k + 1)).filter (fun j => D j ≠ 0) = (range k).filter (fun j => D j ≠ 0) := by
+        rw [range_add_one, filter_insert, if_neg (by simpa using hDk)]
+      rw [e] at hsum
+      have hjk : j ≠ k := fun hh => hDj (hh ▸ hDk)
+      exact ih (by omega) hsum j (by omega) hDj
+    · have e : (range (k + 1)).filter (fun j => D j ≠ 0) = insert k ((range k).filter (fun j => D j ≠ 0)) := by
+        rw [range_add_one, filter_insert, if_pos hDk]
+      rw [e, sum_insert (by simp)] at hsum
+      have hck : c k = 0 := by
+        by_contra hne
+        apply hDk
+        rw [pivot_zero_iff_mem_span hN h (by omega : k < n)]
+        have : colV m M k = -(c k)⁻¹ • ∑ j ∈ (range k).filter (fun j => D j ≠ 0), c j • colV m M j := by
+          have h2 : c k • colV m M k = - ∑ j ∈ (range k).filter (fun j => D j ≠ 0), c j • colV m M j :=
+            eq_neg_of_add_eq_zero_left hsum
+          rw [neg_smul, ← smul_neg, ← h2, smul_smul, inv_mul_cancel₀ hne, one_smul]
+        rw [this]
+        refine Submodule.smul_mem _ _ (Submodule.sum_mem _ fun j hj => Submodule.smul_mem _ _ ?_)
+        have hj' := mem_range.1 (mem_filter.1 hj).1
+        exact Submodule.subset_span ⟨j, hj', rfl⟩
+      rw [hck, zero_smul, zero_add] at hsum
+      rcases Nat.lt_or_ge j k with hlt | hge
+      · exact ih (by omega) hsum j hlt hDj
+      · have : j = k := by omega
+        rw [this]; exact hck
+
 end
 end Gama.Ls.Env
